@@ -385,10 +385,18 @@ def _results_per_run(res, run, what):
         if ev['kind'] == 'FAULT' and ev.get('fault') == 'duplicate' and \
                 ev.get('method') == 'on_action_complete':
             dups['n'] = dups.get('n', 0) + 1
+    # a redelivered request that is refused (action not safe to re-run) is
+    # answered with one error result without a run
+    refused = {}
+    for ev in run.world.rec.events:
+        if ev['kind'] == 'RPC_DELIVER' and ev.get('method') == 'run_action' \
+                and ev.get('redelivered'):
+            aid = (ev.get('ids') or {}).get('action_ex_id')
+            refused[aid] = refused.get(aid, 0) + 1
     for aid, n in sends.items():
         res['monitor_evaluations']['results-per-run'] = \
             res['monitor_evaluations'].get('results-per-run', 0) + 1
-        if n > max(runs.get(aid, 0), 1):
+        if n > max(runs.get(aid, 0), 1) + refused.get(aid, 0):
             res['violations'].append({
                 'prop': 'C06', 'monitor': 'results-per-run',
                 'mech': 'more-results-than-runs', 'phase': what,
